@@ -13,7 +13,8 @@ set_option linter.unusedVariables false
 open Rbacx Rbacx.FileSrc Rbacx.FileSrc.Enc Rbacx.Generated
 
 /-- the model's cache state as the two attributes -/
-def encState (st : SrcState String) : Src.FilePolicySource_state := ⟨encSig st.cachedSig, encSha st.cachedSha⟩
+def encState (st : SrcState String) : Src.FilePolicySource_state :=
+  { cached_stat_sig := encSig st.cachedSig, cached_sha := encSha st.cachedSha }
 
 variable {W : Type}
 
